@@ -35,6 +35,8 @@ def units(tier, seed):
     # every ReplaceAroundStep quadruple x slice x insert offset (incl. offsets inside a text node of the slice)
     step_specs.append({"sid": "basic", "family": "blocks2", "size": 4 if q else 5, "donor": ("blocks2", 4), "all_around": True,
                        "tag": "all-quadruples", "blocks": 4})
+    # runs of three and more text nodes that one mark step fuses (the map stays empty, the size must not change)
+    step_specs.append({"sid": "basic", "family": "marks3", "size": 5 if q else 6, "donor": ("marks3", 3), "blocks": 4})
     for u in common.doc_units(PROPERTY_ID, step_specs, per_scope_blocks=8 if q else 16):
         u["kind"] = "steps"
         out.append(u)
